@@ -67,6 +67,23 @@ def run(index, rep, tier):
         ok, w = cfg.must_pass(cfg.entry, sets_rooted)
         rep.check(ok, "R07.1", fi.qualname, "is_rooted = True on every path", fn_where(fi), "%s sets the tree rooted on every normal path" % name,
                   "%s can return without setting self.is_rooted = True: a hard re-rooting leaves the tree's rooting flag as it was" % fi.qualname)
+        # the rooting flag is set before any re-encoding: the encoder reads it (an unrooted tree's basal bifurcation is collapsed)
+        def encodes(n):
+            for c in node_calls(n):
+                if not (isinstance(c.func, ast.Attribute) and norm(c.func.value) == "self"):
+                    continue
+                if c.func.attr in ("update_bipartitions", "encode_bipartitions", "_update_bipartitions"):
+                    return True
+                if c.func.attr in SOFT:
+                    ub = get_kwarg(c, "update_bipartitions")
+                    if ub is not None and const_value(ub, default=True) is not False:
+                        return True
+            return False
+        for n in cfg.nodes:
+            if encodes(n):
+                ok = cfg.dominated_by(n, sets_rooted, follow_exc=False)
+                rep.check(ok, "R07.1", fi.qualname, "re-encoding before the rooting flag is set", fn_where(fi, n.stmt), "%s: the bipartition update at line %d runs after is_rooted = True" % (name, n.lineno),
+                          "%s re-encodes the bipartitions (`%s`) on a path where self.is_rooted has not yet been set True: the encoder sees the old (unrooted) flag, collapses the new basal bifurcation and caches unrooted bipartitions, so the result is not the requested rooted tree" % (fi.qualname, norm_stmt(n.stmt)[:70]))
         # and nothing resets it afterwards
         after = [n for n in cfg.nodes if n.kind == "stmt" and isinstance(n.ast, ast.Assign) and norm(n.ast.targets[0]) in ("self.is_rooted", "self._is_rooted")
                  and const_value(n.ast.value) is not True]
